@@ -2035,6 +2035,24 @@ class UTPM(Ring, RawAlgorithmsMixIn):
         else:
             xbar, ybar = out
 
+        # constant (ndarray) operands are lifted to polynomials of degree zero, as in pb_dot
+        D,P = z.data.shape[:2]
+        if not isinstance(x,cls):
+            tmp = cls(numpy.zeros((D,P) + numpy.shape(x),dtype=z.data.dtype))
+            tmp[...] = x[...]
+            x = tmp
+
+        if not isinstance(xbar,cls):
+            xbar = cls(numpy.zeros((D,P) + x.shape,dtype=z.data.dtype))
+
+        if not isinstance(y,cls):
+            tmp = cls(numpy.zeros((D,P) + numpy.shape(y),dtype=z.data.dtype))
+            tmp[...] = y[...]
+            y = tmp
+
+        if not isinstance(ybar,cls):
+            ybar = cls(numpy.zeros((D,P) + y.shape,dtype=z.data.dtype))
+
         cls._outer_pullback(zbar.data, x.data, y.data, z.data, out = (xbar.data, ybar.data))
         return (xbar,ybar)
 
